@@ -240,21 +240,25 @@ def durErrText : DurErr → Str
 
 /-- `Parser.parseRegex()`; `none` is the typed nil. -/
 def parseRegex : P (Option Expr) := do
-  let c0 ← peekRune
-  if isWhitespace c0 then consumeWhitespace
-  let c ← peekRune
-  let go : P (Option Expr) := do
-    let lx ← pscanRegex
-    if lx.tok = .BADESCAPE then failAt ("bad escape: ".toList ++ lx.lit) lx.pos
-    else if lx.tok = .BADREGEX then failAt ("bad regex: ".toList ++ lx.lit) lx.pos
-    else if lx.tok ≠ .REGEX then failFound lx ["regex"]
-    else pure (some (.regex lx.lit))
-  if c = '$' then
-    let lx ← pscan
-    unscan
-    if lx.tok ≠ .REGEX then pure none else go
-  else if c ≠ '/' then pure none
-  else go
+  -- `if p.s.n > 0 { return nil, nil }`: no look-ahead in the rune reader while a token is pushed back
+  let s ← get
+  if s.n > 0 then pure none
+  else
+    let c0 ← peekRune
+    if isWhitespace c0 then consumeWhitespace
+    let c ← peekRune
+    let go : P (Option Expr) := do
+      let lx ← pscanRegex
+      if lx.tok = .BADESCAPE then failAt ("bad escape: ".toList ++ lx.lit) lx.pos
+      else if lx.tok = .BADREGEX then failAt ("bad regex: ".toList ++ lx.lit) lx.pos
+      else if lx.tok ≠ .REGEX then failFound lx ["regex"]
+      else pure (some (.regex lx.lit))
+    if c = '$' then
+      let lx ← pscan
+      unscan
+      if lx.tok ≠ .REGEX then pure none else go
+    else if c ≠ '/' then pure none
+    else go
 
 /-
 The mutually recursive part. One fuel counter, decreasing by one at every call and every loop
